@@ -39,7 +39,7 @@ int main(int argc, char** argv) {
 #endif
 #if C12_SEL == 0 || C12_SEL == 5
         // the gray1 writer overruns its row buffer for widths that are not a multiple of 8: run it in a child
-        if (fmt == "pnm" && pix == "gray1")
+        if (fmt == "pnm" && pix.compare(0, 5, "gray1") == 0)   // gray1[-w][-r]: the suffix only selects the model variant
             return guarded([&] { return round_trip_plain<gil::pnm_tag, gil::gray1_image_t, 1>(org, dev, W, H, px, path, true); });
 #endif
 #if C12_SEL == 0 || C12_SEL == 6
